@@ -396,6 +396,61 @@ Proof.
     + split; cbn; try assumption. apply Forall_map_if; [exact Fd|]. intros x Hx.
       apply dev_ok_spec in Hx. apply dev_ok_spec. unfold upd_dev_state. cbn.
       assert (Hm : (rd_fdn x + 1) mod 65536 < 65536) by (apply N.mod_upper_bound; lia). tauto.
+  - (* SetMessageSentTime *)
+    pose proof Fw as F. rewrite Forall_forall in F.
+    apply andb_true_iff in Ho. destruct Ho as [Ho Hfc]. apply andb_true_iff in Ho. destruct Ho as [Ho Hs]. apply andb_true_iff in Ho. destruct Ho as [Ho Hc].
+    cbn [enc_store t_downs].
+    assert (K0 : forall x, In x (a_downs s) ->
+              (bytes_eqb (cw_eui (enc_down x)) (eui_str e) && (cw_created (enc_down x) =? created)%Z) = ((dn_eui x =? e) && (dn_created x =? created)%Z)).
+    { keyed F. f_equal. apply streq_eui; [|exact Ho]. now apply down_ok_eui. }
+    rewrite (ex_key enc_down _ (fun x => (dn_eui x =? e) && (dn_created x =? created)%Z)) by exact K0.
+    destruct (existsb _ (a_downs s)); cbn [fst snd]; [|now split]. split.
+    + unfold st_downs, enc_store. cbn. f_equal. f_equal. apply (map_key enc_down). intros x Hx. rewrite K0 by exact Hx.
+      destruct ((dn_eui x =? e) && (dn_created x =? created)%Z); reflexivity.
+    + split; cbn; try assumption. apply Forall_map_if; [exact Fw|]. intros x Hx.
+      apply down_ok_spec in Hx. apply down_ok_spec. unfold dn_times. cbn. apply N.ltb_lt in Hfc. tauto.
+  - (* UpdateMessageAckTime *)
+    pose proof Fw as F. rewrite Forall_forall in F.
+    apply andb_true_iff in Ho. destruct Ho as [Ho Ha]. apply andb_true_iff in Ho. destruct Ho as [Ho Hfc].
+    cbn [enc_store t_downs].
+    assert (K0 : forall x, In x (a_downs s) ->
+              (bytes_eqb (cw_eui (enc_down x)) (eui_str e) && (cw_fcnt (enc_down x) =? fc) && (0 <? cw_sent (enc_down x))%Z && (cw_acktime (enc_down x) =? 0)%Z)
+              = ((dn_eui x =? e) && (dn_fcnt x =? fc) && (0 <? dn_sent x)%Z && (dn_acktime x =? 0)%Z)).
+    { keyed F. f_equal. f_equal. f_equal. apply streq_eui; [|exact Ho]. now apply down_ok_eui. }
+    rewrite (ex_key enc_down _ (fun x => (dn_eui x =? e) && (dn_fcnt x =? fc) && (0 <? dn_sent x)%Z && (dn_acktime x =? 0)%Z)) by exact K0.
+    destruct (existsb _ (a_downs s)); cbn [fst snd]; [|now split]. split.
+    + unfold st_downs, enc_store. cbn. f_equal. f_equal. apply (map_key enc_down). intros x Hx. rewrite K0 by exact Hx.
+      destruct ((dn_eui x =? e) && (dn_fcnt x =? fc) && (0 <? dn_sent x)%Z && (dn_acktime x =? 0)%Z); reflexivity.
+    + split; cbn; try assumption. apply Forall_map_if; [exact Fw|]. intros x Hx.
+      apply down_ok_spec in Hx. apply down_ok_spec. unfold dn_times. cbn. tauto.
+  - (* ResetActiveAcks *)
+    pose proof Fw as F. rewrite Forall_forall in F. cbn [enc_store t_downs fst snd].
+    assert (K0 : forall x, In x (a_downs s) ->
+              (bytes_eqb (cw_eui (enc_down x)) (eui_str e) && (0 <? cw_sent (enc_down x))%Z && (cw_acktime (enc_down x) =? 0)%Z && cw_ack (enc_down x))
+              = ((dn_eui x =? e) && (0 <? dn_sent x)%Z && (dn_acktime x =? 0)%Z && dn_ack x)).
+    { keyed F. f_equal. f_equal. f_equal. apply streq_eui; [|exact Ho]. now apply down_ok_eui. }
+    split.
+    + unfold st_downs, enc_store. cbn. f_equal. f_equal. apply (map_key enc_down). intros x Hx. rewrite K0 by exact Hx.
+      destruct ((dn_eui x =? e) && (0 <? dn_sent x)%Z && (dn_acktime x =? 0)%Z && dn_ack x); reflexivity.
+    + split; cbn; try assumption. apply Forall_map_if; [exact Fw|]. intros x Hx.
+      apply down_ok_spec in Hx. apply down_ok_spec. unfold dn_times. cbn [dn_eui dn_data dn_port dn_created dn_sent dn_acktime dn_fcnt]. destruct Hx as (A1 & A2 & A3 & A4 & A5 & A6 & A7). repeat split; auto; reflexivity.
+  - (* GetNextUnsentMessage *)
+    pose proof Fw as F. rewrite Forall_forall in F. cbn [enc_store t_downs fst snd]. split; [|exact Hok]. f_equal.
+    rewrite (filter_key enc_down _ (fun x => (dn_eui x =? e) && (dn_sent x =? 0)%Z)).
+    2:{ keyed F. f_equal. apply streq_eui; [|exact Ho]. now apply down_ok_eui. }
+    rewrite (sort_key enc_down cw_created dn_created) by reflexivity.
+    destruct (sort_by dn_created (filter (fun x => (dn_eui x =? e) && (dn_sent x =? 0)%Z) (a_downs s))) as [|m t] eqn:Es; cbn [map]; [reflexivity|].
+    f_equal. f_equal.
+    assert (Hin : In m (sort_by dn_created (filter (fun x => (dn_eui x =? e) && (dn_sent x =? 0)%Z) (a_downs s)))) by (rewrite Es; now left).
+    assert (Sub : forall l y, In y (sort_by dn_created l) -> In y l).
+    { clear. induction l as [|h t IH]; intros y Hy; [exact Hy|]. cbn [sort_by fold_right] in Hy. fold (sort_by dn_created t) in Hy.
+      assert (Ins : forall l0 z, In z (insert_by dn_created h l0) -> z = h \/ In z l0).
+      { clear. induction l0 as [|a l0 IH0]; intros z Hz; cbn in Hz; [destruct Hz as [<-|[]]; now left|].
+        destruct (dn_created h <? dn_created a)%Z; cbn in Hz; [destruct Hz as [<-|Hz]; [now left | now right]|].
+        destruct Hz as [<-|Hz]; [right; now left|]. destruct (IH0 z Hz); [now left | right; now right]. }
+      destruct (Ins _ _ Hy) as [->|Hy2]; [now left | right; now apply IH]. }
+    apply Sub in Hin. apply filter_In in Hin. destruct Hin as [_ Hin]. apply andb_true_iff in Hin. destruct Hin as [Hin _]. apply N.eqb_eq in Hin.
+    subst e. apply dec_enc_down.
 Qed.
 
 Theorem refine_run : forall ops s, store_ok s -> forallb regop_ok ops = true ->
